@@ -3,8 +3,7 @@
 Domain : well-formed texts - grammar-generated (default dialect, random layouts),
          the tests/data corpus, and encoder output for generated modules (C01
          strategies) - x the four encoders.
-Oracle : differential.  pvl.new.loads(t) raises iff pvl.loads(t) raises (same
-         exception class); the result uses exactly PVLModuleNew / PVLGroupNew /
+Oracle : differential.  pvl.new.loads(t) raises iff pvl.loads(t) raises; the result uses exactly PVLModuleNew / PVLGroupNew /
          PVLObjectNew per keyword; its (name, value) items equal those of the
          default result at every level; pvl.new.dumps(new) == pvl.dumps(old); and for
          each encoder class E, E(group_class=PVLGroupNew, object_class=PVLObjectNew)
@@ -95,7 +94,7 @@ def run_text(text):
     if old[0] == "ok" and list(old[1].errors):
         return ("skip", "not well-formed: the default loader repaired empty values")
     if old[0] == "raised" or new[0] == "raised":
-        if old[0] != new[0] or old[1] != new[1]:
+        if old[0] != new[0]:
             return ("fail", "C19/load-outcome-differs",
                     f"pvl.loads -> {old[:2]!r:.80}, pvl.new.loads -> {new[:2]!r:.80}; "
                     f"text={text[:300]!r}")
@@ -114,6 +113,7 @@ def run_text(text):
         return ("fail", "C19/errors-differ", f"{old[1].errors} vs {new[1].errors}")
     a = enc_outcome(lambda: pvl.dumps(old[1]))
     b = enc_outcome(lambda: pvl.new.dumps(new[1]))
+    STATS["dumps:" + a[0]] = STATS.get("dumps:" + a[0], 0) + 1
     if a != b:
         return ("fail", "C19/dumps-differs",
                 f"pvl.dumps -> {a!r:.200}; pvl.new.dumps -> {b!r:.200}; "
@@ -122,6 +122,7 @@ def run_text(text):
         a = enc_outcome(lambda: make_encoder(enc).encode(old[1]))
         b = enc_outcome(lambda: make_encoder(
             enc, group_class=PVLGroupNew, object_class=PVLObjectNew).encode(new[1]))
+        STATS[f"encode:{enc}:{a[0]}"] = STATS.get(f"encode:{enc}:{a[0]}", 0) + 1
         if a != b:
             return ("fail", f"C19/encode-differs/{enc}",
                     f"{enc}: old -> {a!r:.200}; new -> {b!r:.200}; "
@@ -156,12 +157,18 @@ def corpus():
 def texts(draw):
     src = draw(st.sampled_from(["gen", "gen", "enc", "enc"]))
     if src == "gen":
-        d = draw(st.sampled_from(["default", "PVL", "ODL"]))
+        d = draw(st.sampled_from(["default", "PVL", "ODL", "PDS3", "PDS3", "PDS3"]))
         doc = draw(gt.documents(d, min_statements=1))
         return gt.seeded_layout(doc, d, draw(st.integers(0, 2 ** 32)),
                                 draw(st.sampled_from(["light", "full"]))), src
     enc = draw(st.sampled_from(ENCODERS))
     case = draw(c01.cases(enc))
+    if draw(st.booleans()):
+        # PDS3-representable content written by an encoder that keeps GROUPs as they
+        # are, so that re-dumping with the PDS3 encoder has real decisions to make
+        enc = draw(st.sampled_from(["ODL", "ISIS", "PVL"]))
+        case = dict(cfg={}, spec=draw(gv.modules("PDS3")))
+        src = "enc-pds-content"
     try:
         return make_encoder(enc, **case["cfg"]).encode(
             gv.build_module(case["spec"])), src
@@ -169,8 +176,14 @@ def texts(draw):
         return "a = 1\nEND\n", "enc-refused"
 
 
+STATS = {}
+
+
 def record(acc, text, src):
+    STATS.clear()
     r = run_text(text)
+    for k, v in STATS.items():
+        acc.event(k, v)
     acc.event(f"{src}:{r[0]}")
     if r[0] == "skip":
         return
